@@ -296,7 +296,54 @@ func (c *Ctx) c16B() {
 		mk(r("S", gast.S(gast.Rec(gast.Ref("X"), gast.Thr("L1"), "L1"), gast.Star(gast.Dot()))), r("X", gast.C(gast.L("a"), gast.Thr("L1")))),
 		mk(r("S", gast.S(gast.L("x"), gast.Rec(gast.Rec(gast.Ref("X"), gast.Thr("L2"), "L1"), gast.C(gast.L("!"), gast.Thr("L1")), "L2"), gast.Star(gast.Dot()))), r("X", gast.C(gast.L("a"), gast.Thr("L1")))),
 	}
-	c.c16BRun(rethrow, [][]string{{}, {"-optimize-parser"}}, true, rng)
+	// (moderate budgets only: the recursion is as deep as the budget, and Debug output per level would
+	// make a large budget a question of patience, not of charging)
+	for _, g := range rethrow {
+		g.Finalize()
+	}
+	bt := c.BuildUnits(rethrow, [][]string{{}, {"-optimize-parser"}}, false, nil)
+	defer bt.Close()
+	var cs []*mon.Case
+	for _, u := range bt.Units {
+		if !u.OK {
+			c.Report(&Violation{Class: "C16/rethrow-build", Summary: "a grammar whose recovery expression throws its own label does not build: " + u.Fail, Grammar: u.Text, Flags: u.Flags})
+			continue
+		}
+		for _, in := range []string{"", "b", "xb", "a", "xa!"} {
+			for _, n := range []uint64{1, 7, 50, 500, 3000} {
+				for _, memo := range []bool{false, true} {
+					if memo && u.HasFlag("-optimize-parser") {
+						continue
+					}
+					cs = append(cs, &mon.Case{ID: fmt.Sprintf("rt/%s/%s/%d/%t", u.Pkg, in, n, memo), Pkg: u.Pkg, Input: []byte(in), MaxExpr: n, Memo: memo, MaxEvents: 50})
+				}
+			}
+		}
+	}
+	res := bt.Run(cs, batch.RunOpts{MaxDeaths: 4})
+	for _, k := range cs {
+		r := res[k.ID]
+		c.Eval(1)
+		if r == nil {
+			c.Inconclusive("no_result")
+			continue
+		}
+		if r.Died != "" || (r.Timeout && r.Cnt1 == r.Cnt2) {
+			c.Report(&Violation{Class: "C16/rethrow-unbounded", Summary: fmt.Sprintf("Parse with MaxExpressions(%d) on a grammar whose recovery expression throws its own label does not return with the budget error (died=%q timeout=%t counter %d/%d): input %q memo=%t", k.MaxExpr, trunc(r.Died), r.Timeout, r.Cnt1, r.Cnt2, k.Input, k.Memo), Input: k.Input, Case: k})
+			continue
+		}
+		if r.Timeout {
+			c.Inconclusive("rethrow_timeout_with_moving_counter")
+			continue
+		}
+		budget := len(r.Errs) > 0 && r.Errs[len(r.Errs)-1].Inner == "max number of expressions parsed"
+		if budget {
+			c.Distinct("rethrow/" + k.ID)
+			if r.ExprCnt > k.MaxExpr+1 || r.Val != "nil" {
+				c.Report(&Violation{Class: "C16/rethrow-overrun", Summary: fmt.Sprintf("budget %d but %d expressions were evaluated (value %s): input %q", k.MaxExpr, r.ExprCnt, r.Val, k.Input), Input: k.Input, Case: k})
+			}
+		}
+	}
 }
 
 func c16LRStrata() []*gast.Grammar {
